@@ -103,9 +103,38 @@ class Live:
         self.wrt = ["loads", "wing.thickness_cp", "load_factor"]
 
     # ---- API calls -----------------------------------------------------------------------
+    def point(self, p):
+        """Point dictionary.  'p0~alpha' is p0 with the single input `alpha` taken from p1 (a history in which only ONE
+        input changes between two runs: a value cached under a partial key would be stale)."""
+        if "~" in p:
+            base, field = p.split("~")
+            d = dict(self.pts[base])
+            d[field] = self.pts["p1"][field]
+            return d
+        if "!" in p:  # 'p1!omega': p1 with the single input `omega` set to exactly zero (early-return / special-value branches)
+            base, field = p.split("!")
+            d = dict(self.pts[base])
+            v = d[field]
+            d[field] = [0.0 * x for x in v] if isinstance(v, list) else 0.0
+            return d
+        return self.pts[p]
+
+    ZERO_OK = ("alpha", "beta", "omega", "cg", "empty_cg", "twist", "lx", "fuel_mass")
+
+    def fields(self):
+        return sorted(self.pts["p0"])
+
+    def zero_fields(self):
+        ok = set(self.ZERO_OK)
+        if self.kind not in ("aero2", "aerog"):
+            ok.discard("alpha")  # zero lift: the Breguet / lift-equals-weight functionals are singular (see C01)
+        if "wingbox" in self.kind:
+            ok.discard("twist")  # arccos kink of WingboxGeometry at exactly zero section twist (see C01)
+        return [f for f in self.fields() if f in ok]
+
     def set_point(self, p):
         self.pt = p
-        d = self.pts[p]
+        d = self.point(p)
         pr = self.m.prob
         if self.kind in ("aero2", "aerog"):
             for k in ("v", "alpha", "beta", "Mach_number", "re", "rho"):
@@ -285,7 +314,8 @@ def replay(kind, hist, start="p0", mode="auto", rtol=1e-9):
             if ran != L.pt:
                 continue  # not enabled in the spec
             ref = fresh(kind, L.pt, mode)[1]
-            bad = compare(L.totals(), ref, rtol, g_of)
+            # derivatives amplify the difference between two states that are both converged to the solver tolerance
+            bad = compare(L.totals(), ref, max(rtol, 1e-8), g_of)
             if bad:
                 devs.append({"step": i, "op": "totals", "pt": L.pt, "what": "totals", "bad": bad[:6]})
             bad = compare(L.outputs(), fresh(kind, L.pt, mode)[0], rtol)
